@@ -306,7 +306,7 @@ def rule_elab_eval(chk):
                    if not msgs else "; ".join(msgs), where(el.ternary), sample={"cases": cases, "accepted": n_ok})
             chk.floor("C03.floor/elab-ternary-accepted", n_ok, 200, "accepted operand combinations typed again", where(el.ternary))
         else:
-            chk.note("C03.elab: parse_expr_ternary is not readable (%s)" % [r[4] for r in res if not r[1]][:1])
+            chk.unreadable("C03.elab/ternary/readable", "parse_expr_ternary", [r[4] for r in res if not r[1]][:1], where(el.ternary))
     return readable_b, readable_u
 
 SWIZZLES = ["x", "y", "w", "xy", "xx", "yx", "xyz", "rgba", "zzzz", "xyzw", "ba", "q", "xg", "_m00", "_11", "_m00_m11", "_11_22_12",
@@ -374,8 +374,7 @@ def rule_access_eval(chk):
              if n in el.u.names] + list(el.u.objects)
     res = _pmap(_access_task, names)
     if not all(r[1] for r in res):
-        chk.note("C03.access: parse_expr_unchecked's member / subscript arms are not readable (%s)" % [(r[0], r[4]) for r in res if not r[1]][:1])
-        return False
+        return chk.unreadable("C03.access/readable", "parse_expr_unchecked (member / subscript arms)", [(r[0], r[4]) for r in res if not r[1]][:1], where(pe))
     for name, _r, cases, n_ok, bad, constness in sorted(res):
         chk.ob("C03.access/" + name, not bad["type"], "%d member / subscript forms (%d accepted): each accepted node is typed by the IR rule without aborting, as reported" % (cases, n_ok)
                if not bad["type"] else "; ".join(m for k, m in bad["type"]), where(pe), sample={"composite": name, "cases": cases, "accepted": n_ok})
@@ -485,8 +484,7 @@ def rule_call_eval(chk):
     ptypes = [t for t in QUICK_TYPES if t in el.u.names]
     res = _pmap(_call_task, ptypes)
     if not all(r[1] for r in res):
-        chk.note("C03.call: write_function is not readable (%s)" % [(r[0], r[4]) for r in res if not r[1]][:1])
-        return False
+        return chk.unreadable("C03.call/readable", "write_function", [(r[0], r[4]) for r in res if not r[1]][:1], where(wf))
     for ptype, _r, cases, n_ok, bad in sorted(res):
         chk.ob("C03.call/args/" + ptype, not bad["type"], "%d calls (%d accepted): every argument reaches the call with exactly the parameter's type, in order" % (cases, n_ok)
                if not bad["type"] else "; ".join(m for k, m in bad["type"]), where(wf), sample={"param": ptype, "cases": cases, "accepted": n_ok})
@@ -586,8 +584,7 @@ def rule_stmt_eval(chk):
     names = [t for t in QUICK_TYPES + ["Void"] if t in el.u.names]
     res = _pmap(_stmt_task, names)
     if not all(r[1] for r in res):
-        chk.note("C03.stmt: parse_statement / parse_initializer are not readable (%s)" % [(r[0], r[4]) for r in res if not r[1]][:1])
-        return False
+        return chk.unreadable("C03.stmt/readable", "parse_statement (return) / parse_initializer", [(r[0], r[4]) for r in res if not r[1]][:1], where(ps))
     for tname, _r, cases, n_ok, bad in sorted(res):
         chk.ob("C03.stmt/" + tname, not bad["type"], "%d return statements and initialisers (%d accepted): the value has exactly the declared type" % (cases, n_ok)
                if not bad["type"] else "; ".join(m for k, m in bad["type"]), where(ps), sample={"type": tname, "cases": cases, "accepted": n_ok})
@@ -656,8 +653,7 @@ def rule_ctor_eval(chk):
         return False
     res = _pmap(_ctor_task, [t for t in CTOR_TYPES if t in el.u.names])
     if not all(r[1] for r in res):
-        chk.note("C03.ctor: parse_expr_constructor is not readable (%s)" % [(r[0], r[4]) for r in res if not r[1]][:1])
-        return False
+        return chk.unreadable("C03.ctor/readable", "parse_expr_constructor", [(r[0], r[4]) for r in res if not r[1]][:1], where(pc))
     for tname, _r, cases, n_ok, bad in sorted(res):
         chk.ob("C03.ctor/" + tname, not bad["type"], "%d argument lists (%d accepted): slots in order, converted to the element type, element counts add up" % (cases, n_ok)
                if not bad["type"] else "; ".join(m for k, m in bad["type"]), where(pc), sample={"type": tname, "cases": cases, "accepted": n_ok})
@@ -696,6 +692,80 @@ def abort_survey(facts, tier="quick"):
     return out
 
 
+def rule_intrinsic_modifiers(chk):
+    """The signatures of the built-in object methods are built from tables of (type, in/out/inout) pairs. get_methods is
+    evaluated for every object type and the parameter modifiers of every signature it returns are compared with the
+    table the function selected: an `out` of the table must arrive as `out` in the signature (out/inout arguments are
+    checked against the signature, C03.call). Also: the conversion TypeId -> ParamType, which defaults the modifier to
+    `in`, is not used outside tests."""
+    import convmodel as CM
+    f = chk.facts
+    gm = f.fn("get_methods", "rssl_ir")
+    if not chk.anchor("C03.anchor/get_methods", gm, "intrinsic_data::get_methods"):
+        return
+    u = CM.Universe(f)
+    ext = dict(u.externs())
+    ext["get_template_params"] = lambda a: []
+    ip = I.Interp(f, max_depth=10, extern=ext)
+    ip.max_loop = 512
+    mod = I.Enum("Module", None, {"type_registry": I.Opaque("types")})
+    # the let that selects the table: a match over the object type whose arms are table constants
+    sel = None
+    for st in F.walk(gm["thir"]):
+        if isinstance(st, dict) and st.get("k") in ("Let", "LetStmt") and isinstance(st.get("init"), dict):
+            ini = F.strip(st["init"])
+            if ini.get("k") == "Match" and "ObjectType" in (F.strip(ini["scrut"]).get("ty") or ""):
+                sel = ini
+                break
+    if not chk.anchor("C03.anchor/get_methods-table", sel, "table selection of get_methods", where(gm)):
+        return
+    obj_param = gm["params"][1]["pat"]["id"] if len(gm.get("params", [])) > 1 and gm["params"][1].get("pat", {}).get("k") == "Bind" else None
+    n_methods = n_out = 0
+    bad = None
+    for oname in u.objects:
+        ot = u.base[u.names[oname]].fields["0"]
+        try:
+            env = {obj_param: ot} if obj_param is not None else {}
+            try:
+                table = ip.ev(sel, env, 0)
+            except I.ReturnEx:
+                continue            # no built-in methods for this object
+            methods = ip.apply(gm, [mod, ot])
+        except I.Unknown as e:
+            chk.unreadable("C03.out/intrinsic-methods/readable", "get_methods(%s)" % oname, e, where(gm))
+            return
+        if not isinstance(table, list) or not isinstance(methods, list):
+            continue
+        if len(table) != len(methods):
+            bad = bad or "%s: the table has %d entries, get_methods returns %d" % (oname, len(table), len(methods))
+            continue
+        for d, m in zip(table, methods):
+            n_methods += 1
+            want = [pd.fields["1"].variant for pd in d.fields["param_types"]]
+            got = [p.fields["input_modifier"].variant if isinstance(p, I.Enum) and isinstance(p.fields.get("input_modifier"), I.Enum) else "?" for p in m.fields["signature"].fields["param_types"]]
+            n_out += sum(1 for w in want if w != "In")
+            if want != got:
+                bad = bad or "%s::%s: the table declares the parameters %s, the signature carries %s" % (oname, d.fields.get("function_name"), want, got)
+    chk.ob("C03.out/intrinsic-methods", bad is None, "%d built-in methods (%d out / inout parameters): every signature carries the modifiers of its table entry" % (n_methods, n_out)
+           if bad is None else bad, where(gm), sample={"methods": n_methods, "out_params": n_out})
+    chk.floor("C03.floor/intrinsic-methods", n_methods, 100, "built-in object methods read", where(gm))
+    chk.floor("C03.floor/intrinsic-out-params", n_out, 40, "out / inout parameters in the method tables", where(gm))
+    # the defaulting conversion is not used where signatures are built
+    uses = []
+    for path, b in f.bodies.items():
+        if "thir" not in b:
+            continue
+        for c in F.exprs(b["thir"], "Call"):
+            fn, rfn, ta = c.get("fn") or "", c.get("rfn") or "", c.get("targs") or []
+            if ("ParamType" in rfn and "From<" in rfn) or (fn.endswith("Into::into") and len(ta) == 2 and ta[1].endswith("::ParamType")) or \
+                    (fn.endswith("From::from") and (c.get("ty") or "").endswith("::ParamType")):
+                uses.append((b, c))
+    imp = [p_ for p_ in f.bodies if "ParamType as core::convert::From<" in p_]
+    chk.ob("C03.out/no-defaulted-modifier", not uses, "the TypeId -> ParamType conversion (modifier defaults to `in`; %d impl) is not called in non-test code" % len(imp) if not uses else
+           "%s builds a parameter with the TypeId -> ParamType conversion, which drops the declared modifier and makes the parameter `in`" % short(uses[0][0]["path"]),
+           where(uses[0][0], uses[0][1].get("ln")) if uses else where(gm))
+
+
 
 def run(chk):
     f = chk.facts
@@ -704,6 +774,7 @@ def run(chk):
     rule_call_eval(chk)
     rule_stmt_eval(chk)
     rule_ctor_eval(chk)
+    rule_intrinsic_modifiers(chk)
     if not rb:
         rule_assign(chk)
     if not ru:
